@@ -1606,6 +1606,24 @@ fn handle_message(
         }
     }
 
+    // These methods are notifications. A client that sends one with
+    // an id is waiting on a response, so it gets one.
+    if let Some(method @ ("initialized"
+    | "textDocument/didOpen"
+    | "textDocument/didChange"
+    | "textDocument/didClose"
+    | "exit")) = message.get("method").and_then(|m| m.as_str())
+    {
+        if let Some(id) = message.get("id").filter(|id| !id.is_null()) {
+            push_error(
+                &mut outgoing,
+                id.clone(),
+                ErrorCodes::InvalidRequest,
+                format!("{method} is a notification, so it must not have an id."),
+            );
+        }
+    }
+
     (outgoing, action)
 }
 
